@@ -4,6 +4,7 @@ import SeqVerif.Model.DocsMergeComplete
 import SeqVerif.Model.ProxyRead
 import SeqVerif.Model.ProxyCompose
 import SeqVerif.Model.ProxyE2E
+import SeqVerif.Model.ProxyApiLemmas
 import SeqVerif.Extracted.C16
 /-!
 # C16 - proxy reads degrade honestly: complete if all shards answer, else marked partial
@@ -693,6 +694,131 @@ theorem c16_api_honest (hot cold : List (List Call)) (hotArr coldArr : List (Nat
           exact ⟨rep, l, t', rfl⟩
         | _ => rw [hr] at hok; simp [ShardRes.isOk] at hok
 
+open SV.ProxyApi in
+/-- **C16 (Export, aligned).**  `Export` takes the `Id` of what it sends from the document itself; whatever the stores
+do, what it sends is exactly the document list of `Search` (one per returned ID, in order - `c16_response_aligned`),
+i.e. the i-th sent pair carries the i-th returned ID and bytes that are empty or were received from the store that
+returned that ID, under that ID. -/
+theorem c16_export_aligned (b : Bool) (hot cold : List (Nat × ShardRes)) (offset size : Nat) (hint : Nat)
+    (order : List Nat) (behav : Nat → Option (List Ev)) (sent : List (ProxySearch.ID × Nat)) (e : Bool)
+    (h : apiExport b (searchAndFetch hot cold offset size false hint true order behav) = .stream sent e) :
+    ∃ ids t n p c docs, searchAndFetch hot cold offset size false hint true order behav = .ok ids t n p c docs ∧
+      sent = docs.map (fun d => (d.id, d.data)) ∧
+      (docs = [] ∨ (sent.length = ids.length ∧
+        ∀ (i : Nat) (x : ProxySearch.ID × Src) (d : ProxySearch.ID × Nat), ids[i]? = some x → sent[i]? = some d →
+          d.1 = x.1 ∧ (d.2 = 0 ∨ ∃ evs, behav (srcNat c x.2) = some evs ∧ Ev.doc x.1 d.2 ∈ evs))) := by
+  cases hf : searchAndFetch hot cold offset size false hint true order behav with
+  | err k => rw [hf] at h; cases k <;> simp [apiExport] at h
+  | panic => rw [hf] at h; simp [apiExport] at h
+  | fetchErr => rw [hf] at h; simp [apiExport] at h
+  | ok ids t n p c docs =>
+    rw [hf] at h
+    have hsent : sent = docs.map (fun d => (d.id, d.data)) := by
+      simp only [apiExport] at h
+      split at h
+      · injection h with h1 _; exact h1.symm
+      · split at h
+        · cases h
+        · injection h with h1 _; exact h1.symm
+    refine ⟨ids, t, n, p, c, docs, rfl, hsent, ?_⟩
+    rcases c16_response_aligned hot cold offset size false hint true order behav ids t n p c docs hf with h0 | ⟨hl, hp⟩
+    · exact Or.inl h0
+    · right
+      refine ⟨by rw [hsent]; simpa using hl, ?_⟩
+      intro i x d hx hd
+      rw [hsent, List.getElem?_map] at hd
+      cases hdi : docs[i]? with
+      | none => rw [hdi] at hd; cases hd
+      | some d0 =>
+        rw [hdi] at hd
+        simp only [Option.map_some, Option.some.injEq] at hd
+        subst hd
+        obtain ⟨a, _, c'⟩ := hp i x d0 hx hdi
+        exact ⟨a, c'⟩
+
+open SV.ProxyApi in
+/-- **C16 (Export, honest) - for the handler that reports a partial result** (`reportsPartial = true`, the behaviour
+of fixes/C16-export-partial.patch; the obligation `c16_x_export_reports_partial` ties it to the source): an export
+that ends with status OK means every shard of the consulted tier answered and no answering store reported an error. -/
+theorem c16_export_honest (hot cold : List (List Call)) (hotArr coldArr : List (Nat × ShardRes))
+    (hh : hotArr.Perm (indexed 0 (hot.map searchShard))) (hc : coldArr.Perm (indexed 0 (cold.map searchShard)))
+    (offset size : Nat) (hint : Nat) (order : List Nat) (behav : Nat → Option (List Ev))
+    (sent : List (ProxySearch.ID × Nat))
+    (h : apiExport true (searchAndFetch hotArr coldArr offset size false hint true order behav) = .stream sent false) :
+    ∃ tier, (tier = hot ∨ tier = cold) ∧ ∀ calls ∈ tier, ∃ rep l t, searchShard calls = .ok rep l t 0 := by
+  have hapi : ∃ ids docs total,
+      api (searchAndFetch hotArr coldArr offset size false hint true order behav) = .resp ids docs false total := by
+    cases hf : searchAndFetch hotArr coldArr offset size false hint true order behav with
+    | err k => rw [hf] at h; cases k <;> simp [apiExport] at h
+    | panic => rw [hf] at h; simp [apiExport] at h
+    | fetchErr => rw [hf] at h; simp [apiExport] at h
+    | ok ids t n p c docs =>
+      rw [hf] at h
+      simp only [apiExport] at h
+      simp only [api]
+      cases p with
+      | true => simp at h
+      | false =>
+        simp only [Bool.false_eq_true, if_false] at h ⊢
+        split at h
+        · cases h
+        · rename_i hn; rw [if_neg hn]; exact ⟨_, _, _, rfl⟩
+  obtain ⟨ids, docs, total, hapi⟩ := hapi
+  exact (c16_api_honest hot cold hotArr coldArr hh hc offset size false hint order behav ids docs total hapi).1
+
+open SV.ProxyApi in
+/-- **the defect found at the API boundary** (open until fixes/C16-export-partial.patch lands): the handler as it is
+(`reportsPartial = false`) streams the documents of a result that `doSearch` flagged partial - hot shard 0 silent,
+shard 1 answering - and ends with status OK; `ExportResponse` has no flag, so the client takes it for complete. -/
+theorem c16_export_partial_witness :
+    searchAndFetch [(0, searchShard [.fail]), (1, searchShard [.resp .none [(8, 2)] 1 0])] [] 0 3 false 0 true [100]
+        (fun _ => some [.doc (8, 2) 5]) = .ok [((8, 2), (1, 0))] 1 0 true false [⟨(8, 2), 100, 5⟩] ∧
+    apiExport false (.ok [((8, 2), (1, 0))] 1 0 true false [⟨(8, 2), 100, 5⟩]) = .stream [((8, 2), 5)] false ∧
+    apiExport true (.ok [((8, 2), (1, 0))] 1 0 true false [⟨(8, 2), 100, 5⟩]) = .stream [((8, 2), 5)] true := by
+  refine ⟨by decide, by decide, by decide⟩
+
+open SV.ProxyApi in
+/-- **C16 (Fetch).**  `Fetch` (every ID asked from every store, runs of equal IDs collapsed, `Id` taken from the
+document): the handler fails / panics, or sends one item per run of equal requested IDs - exactly the request, in
+order, when the requested IDs are distinct and there is a store -, each item carrying bytes that are empty or were
+received from some store in a block with that very ID. -/
+theorem c16_fetch_api (orig : List ProxySearch.ID) (srcs order : List Nat) (behav : Nat → Option (List Ev))
+    (l : List (ProxySearch.ID × Nat)) (h : apiFetch orig srcs order behav = .docs l) :
+    l.map (·.1) = collapse ((expand orig srcs).map (·.id)) ∧
+    (orig.Nodup → srcs ≠ [] → l.map (·.1) = orig) ∧
+    (∀ d ∈ l, d.2 = 0 ∨ ∃ s evs, behav s = some evs ∧ Ev.doc d.1 d.2 ∈ evs) := by
+  unfold apiFetch at h
+  have hal := c16_fetch_aligned (expand orig srcs) order behav
+  cases hf : fetchDocsStream (expand orig srcs) order behav with
+  | none => rw [hf] at h; cases h
+  | some r =>
+    rw [hf] at h hal
+    cases r with
+    | panic => cases h
+    | nofuel => cases h
+    | val out =>
+      simp only at h hal
+      injection h with h
+      subst h
+      have hids : out.map (·.id) = (expand orig srcs).map (·.id) :=
+        ids_of_pointwise _ _ hal.1 (fun i cur d h1 h2 => (hal.2 i cur d h1 h2).1)
+      have h1 : ((uniq out).map fun d => (d.id, d.data)).map (·.1) = collapse ((expand orig srcs).map (·.id)) := by
+        rw [List.map_map, ← hids, ← uniq_ids]; rfl
+      refine ⟨h1, fun hnd hs => by rw [h1, collapse_expand orig srcs hnd hs], ?_⟩
+      intro d hd
+      obtain ⟨d0, hd0, rfl⟩ := List.mem_map.mp hd
+      have hin := uniq_mem out d0 hd0
+      obtain ⟨i, hi⟩ := List.getElem?_of_mem hin
+      have hlt : i < (expand orig srcs).length := by
+        rw [← hal.1]
+        rcases Nat.lt_or_ge i out.length with h' | h'
+        · exact h'
+        · rw [List.getElem?_eq_none h'] at hi; cases hi
+      obtain ⟨a, b, c⟩ := hal.2 i _ d0 (List.getElem?_eq_getElem hlt) hi
+      rcases c with c | ⟨evs, hb, he⟩
+      · exact Or.inl c
+      · exact Or.inr ⟨_, evs, hb, by simpa [a] using he⟩
+
 /-- `uniqueIDIterator` (the `Documents` path): one item per run of equal IDs, each item is one the inner iterator
 yielded, and a run that contains a non-empty document is represented by a non-empty one -/
 theorem c16_unique (l : List Doc) :
@@ -766,6 +892,16 @@ store-reported errors of an otherwise clean answer into codes.Internal (the orde
 theorem c16_x_api_shape :
     doSearchOrder = ["g.searchIngestor.Search", "parseProxyError", "errors.Is(err, consts.ErrPartialResponse)", "processSearchErrors"] ∧
     apiStoreErrorsCond = ["err == nil && len(qpr.Errors) > 0"] := by decide
+
+/-- how the handlers pair IDs and documents: `makeProtoDocs` (Search / ComplexSearch) by position - `Id` from
+`qpr.IDs[i]`, `Data` from the i-th `docs.Next()` -, `Export` and `Fetch` by the document's own ID -/
+theorem c16_x_pairing :
+    protoDocsPairing = ["range qpr.IDs", "doc.Id = id.ID.String()", "d, _ := docs.Next()", "doc.Data = d.Data"] ∧
+    exportDocID = ["doc.ID.String()"] ∧ fetchDocID = ["doc.ID.String()"] := by decide
+
+/-- `Export` closes the stream of a partial result with a status error (what `c16_export_honest` is about).
+FAILS on a tree without fixes/C16-export-partial.patch - see `c16_export_partial_witness`. -/
+theorem c16_x_export_reports_partial : exportReportsPartial = true := by decide
 
 /-! ## Non-vacuity -/
 
